@@ -24,8 +24,8 @@ class SArr(_np.ndarray):
     def _cmp(self, o, uf):
         if self.dtype != object:
             return uf(_np.asarray(self), o)
-        return uf(_np.asarray(self), _np.asarray(o, dtype=object) if not isinstance(o, _np.ndarray) else o,
-                  dtype=object).view(SArr)
+        r = uf(_np.asarray(self), _np.asarray(o, dtype=object) if not isinstance(o, _np.ndarray) else o, dtype=object)
+        return r.view(SArr) if isinstance(r, _np.ndarray) else r
 
     def __lt__(self, o): return self._cmp(o, _np.less)
     def __le__(self, o): return self._cmp(o, _np.less_equal)
@@ -553,7 +553,10 @@ class NPShim(types.ModuleType):
         return _np.array(idx, dtype=int)
 
     def sum(self, a, axis=None, **k):
-        return _np.sum(_np.asarray(a) if not isinstance(a, _np.ndarray) else a, axis=axis)
+        r = _np.sum(_np.asarray(a) if not isinstance(a, _np.ndarray) else a, axis=axis)
+        if isinstance(r, _np.ndarray) and r.ndim == 0:
+            r = r.item()
+        return r
 
     def mean(self, a, axis=None, **k):
         a = _np.asarray(a)
